@@ -100,13 +100,15 @@ def load_kind(text, mf=None):
     return {'kind': 'entry', 'n': len(m.entries), 'exc': ''}, m
 
 
-def text_record(text, mf=None, meta=None):
+def text_record(text, mf=None, meta=None, strict=False):
     lines = [l for l in text.split('\n')]
     cls = [c for c in (classify_line(l) for l in lines) if c is not None]
     # (dash-escaped lines are unescaped inside a signed block only: without any armor line in the text a
     # line starting with "- " is a line with the unknown tag "-")
     lenient = any(l.startswith('-----') for l in lines) or '\r' in text \
         or '\x0b' in text or '\x0c' in text or any(ord(c) in (0x1c, 0x1d, 0x1e, 0x85, 0x2028, 0x2029) for c in text)
+    if strict:
+        lenient = False
     obs, mf = load_kind(text, mf)
     return {'lines': cls, 'lenient': lenient, 'obs': {'kind': obs['kind'], 'n': obs['n']},
             'exc': obs['exc'], 'text': text}, mf
@@ -171,7 +173,15 @@ def near_valid_records(args):
     for _ in range(n):
         b = rng.choice(bases)
         k = rng.randrange(len(b) + 1)
-        how = rng.choice(['ins', 'del', 'rep', 'dup_field', 'drop_field', 'twolines', 'prefix', 'dup_name'])
+        how = rng.choice(['ins', 'del', 'rep', 'dup_field', 'drop_field', 'twolines', 'prefix', 'dup_name', 'joined'])
+        if how == 'joined':
+            # two valid lines joined by a character that separates FIELDS for str.split() but is no line
+            # break for a text file: one (usually malformed) line, never two entries
+            sep = rng.choice(['\x0b', '\x0c', '\x1c', '\x1d', '\x1e', '\x85', '\u2028', '\u2029'])
+            t = b + sep + rng.choice(bases)
+            r, mf = text_record(t + '\n', mf, strict=True)
+            recs.append(r)
+            continue
         if how == 'prefix':
             # something in front of an otherwise valid line (dash-escape, quote, comment marks)
             t = rng.choice(['- ', '- ', '-- ', '+ ', '> ', '# ', '- - ', '-\t']) + b
